@@ -20,7 +20,7 @@ parse_prim(P* p, T& v) { v = static_cast<T>(p_u64(p)); }
 template <typename T>
 inline typename std::enable_if<std::is_integral<T>::value && std::is_signed<T>::value>::type parse_prim(P* p, T& v) { v = static_cast<T>(p_i64(p)); }
 template <typename T>
-inline typename std::enable_if<std::is_floating_point<T>::value>::type parse_prim(P* p, T& v) { v = static_cast<T>(p_f64(p)); }
+inline typename std::enable_if<std::is_floating_point<T>::value>::type parse_prim(P* p, T& v) { v = (sizeof(T) == 4) ? static_cast<T>(p_f32(p)) : static_cast<T>(p_f64(p)); }
 
 template <typename T>
 inline typename std::enable_if<std::is_same<T, bool>::value>::type dump_prim(const T& v) { o_u64(v ? 1U : 0U); }
